@@ -2184,8 +2184,6 @@ func TestVerifC09(t *testing.T) {
 	}
 	base := t.TempDir()
 	only := os.Getenv("VERIF_C09_ONLY")
-	blockViol := map[string]int{}
-	blockCap := map[string]int{"enum": 25, "random": 400, "push": 100}
 	for i := 0; i < total; i++ {
 		if replayIdx >= 0 && i != replayIdx {
 			continue
@@ -2193,7 +2191,9 @@ func TestVerifC09(t *testing.T) {
 		if replayIdx < 0 && !cfg.Mine(i) {
 			continue
 		}
-		if replayIdx < 0 && rep.OverBudget() {
+		// rep.Enough() ignores violations that match a listed known finding, so D13/D14 firing in every
+		// other enumerated case do not end the run before the sampled histories and the push plans ran
+		if replayIdx < 0 && ((rep.Enough() && os.Getenv("VERIF_C09_NOSTOP") == "") || rep.OverBudget()) {
 			break
 		}
 		blk := "push"
@@ -2205,14 +2205,6 @@ func TestVerifC09(t *testing.T) {
 		if only != "" && replayIdx < 0 && blk != only { // development aid: run one block only
 			continue
 		}
-		// A block that is already violated many times over is cut short, the others still run: with a
-		// known finding that fires in every other enumerated case, rep.Enough() alone would end the run
-		// before the sampled histories and the push plans were looked at at all.
-		if replayIdx < 0 && blockViol[blk] >= blockCap[blk] && os.Getenv("VERIF_C09_NOSTOP") == "" {
-			rep.Count("cases_skipped_block_"+blk+"_already_violated", 1)
-			continue
-		}
-		before := rep.Violations()
 		r := kit.NewRand(cfg.Seed, "C09", i)
 		rep.Eval(1)
 		switch {
@@ -2223,7 +2215,6 @@ func TestVerifC09(t *testing.T) {
 		default:
 			c09RunPushCase(t, rep, c09GenPush(r, i), base)
 		}
-		blockViol[blk] += rep.Violations() - before
 	}
 	if replayIdx >= 0 {
 		t.Logf("replay of case %d: %d violation(s)", replayIdx, rep.Violations())
